@@ -246,3 +246,59 @@ for _op in ["<", "<=", ">", ">=", "==", "!="]:
             uses={"opaque.Condition": row_ctor, "opaque.Output": out_ctor, "PlanEntityEmitter._wires_to_network_selection": wires_sel},
             properties=("C01", "C07", "C05"), min_obligations=1, no_replay=True, note=f"first row {_sn} {_op}; second row signal > constant (and)"))
 CONTRACTS += [row_ctor, wires_sel]
+
+# =================================================================================================
+# BlueprintEmitter._materialize_connections: every wire of the plan becomes one add_circuit_connection call with the plan's
+# colour, entities and sides — two wires between the same ordered pair that differ only in their SIDES (or colour) are two
+# wires (MST chaining through a combinator's input and output).  Plan of two wires between the same pair: bounded.
+# =================================================================================================
+BEQ = "dsl_compiler/src/emission/emitter.py::BlueprintEmitter."
+WIRES = []
+
+
+def _add_conn(ex, a):
+    WIRES.append(dict(a.kwargs))
+    return None
+
+
+add_conn = Contract(qualname="draftsman::Blueprint.add_circuit_connection", params={"kwargs": ty.TOpaque("kw")}, effect=_add_conn, verify=False,
+                    note="ASSUMED (draftsman): add_circuit_connection(color, entity_1, entity_2, side_1, side_2) adds that wire (recorded)")
+
+
+def _wire_t(src, dst):
+    return ty.TObj("WireConnection", only=("WireConnection",), ftypes=(
+        ("source_entity_id", ty.TConcrete(src)), ("sink_entity_id", ty.TConcrete(dst)), ("wire_color", ty.Str), ("source_side", ty.TOpt(ty.Str)),
+        ("sink_side", ty.TOpt(ty.Str)), ("signal_name", ty.Str)))
+
+
+def _mat_post(a, res):
+    conns = a.layout_plan.wire_connections
+    if len(WIRES) != len(conns):
+        return False
+    cs = []
+    for c, w in zip(conns, WIRES):
+        cs += [w["color"] is c.wire_color, w["entity_1"] is a.entity_map[c.source_entity_id], w["entity_2"] is a.entity_map[c.sink_entity_id]]
+        for side, key in ((c.source_side, "side_1"), (c.sink_side, "side_2")):
+            if side is None:
+                cs.append(key not in w)
+            else:
+                # an empty side string is "no side given"
+                cs.append(z3.If(z3.Length(side) > 0, z3.BoolVal(key in w and w.get(key) is side), z3.BoolVal(key not in w)))
+    return And(*cs)
+
+
+from pyvc.values import SObj as _SObj3  # noqa: E402
+
+_ENT_A, _ENT_B = _SObj3(["ExternalEntity"], "entity_a", lazy=False), _SObj3(["ExternalEntity"], "entity_b", lazy=False)
+
+CONTRACTS.append(Contract(
+    qualname=BEQ + "_materialize_connections",
+    params={"self": ty.TObj("BlueprintEmitter", only=("BlueprintEmitter",)),
+            "layout_plan": ty.TObj("LayoutPlan", only=("LayoutPlan",), ftypes=(("wire_connections", ty.TTuple((_wire_t("a", "b"), _wire_t("a", "b")))),)),
+            "entity_map": ty.TConcrete({"a": _ENT_A, "b": _ENT_B})},
+    requires=[("(reset)", lambda a: WIRES.clear() or True)],
+    ensures=[("one add_circuit_connection per planned wire, with its colour, entities and sides", _mat_post)],
+    uses={"opaque.add_circuit_connection": add_conn, "opaque.warning": "skip", "opaque.error": "skip"},
+    dynamic_types={"self": {"blueprint": ty.TOpaque("blueprint"), "diagnostics": ty.TOpaque("diag")}},
+    properties=("C07", "C01"), min_obligations=1, no_replay=True, note="two wires between the same ordered pair"))
+CONTRACTS.append(add_conn)
